@@ -14,7 +14,7 @@ LEVEL = "other"
 ITEM_CAP = {"quick": 180, "thorough": 900}
 FUNCS = ["qlasskit.qcircuit.qcircuit.QCircuit.{append_circuit,__iadd__,__add__,repeat,copy,append,qft,iqft}", "qlasskit.qcircuit.qcircuitenhanced.QCircuitEnhanced.remove_identities"]
 BOUNDS = {
-    "quick": "append_circuit: 60 fixed-seed classical circuit pairs (B on 2-3 qubits appended onto A on 3-5 qubits) with the REMAP LIST SYMBOLIC (distinct in-range z3 Ints) and the basis state symbolic; 40 non-classical pairs with every injective remap enumerated (exact amplitudes); +/+=: 80 pairs; repeat: symbolic n in [0,4] on 40 circuits; copy: 40 circuits; remove_identities: all sequences of length <= 4 over 11 gate objects (repeated objects, distinct objects of one gate, permuted wires, barriers), all sequences of length <= 3 and all nested palindromes g h h g over 14 phase/non-self-inverse gate objects (exact amplitudes), palindromes g h k k h g over the classical pool; qft/iqft: every injective qubit list of length <= 3 on 4 qubits",
+    "quick": "append_circuit: 60 fixed-seed classical circuit pairs (B on 2-3 qubits appended onto A on 3-5 qubits) with the REMAP LIST SYMBOLIC (distinct in-range z3 Ints) and the basis state symbolic; 40 non-classical pairs with every injective remap enumerated (exact amplitudes); +/+=: 80 pairs; repeat: symbolic n in [0,4] on 40 circuits; copy: 40 circuits; remove_identities: all sequences of length <= 4 over 11 gate objects (repeated objects, distinct objects of one gate, permuted wires, barriers), all sequences of length <= 3 and all nested palindromes g h h g and g h k k h g over 14 phase/non-self-inverse gate objects (exact amplitudes), palindromes g h k k h g over the classical pool; qft/iqft: every injective qubit list of length <= 3 on 4 qubits",
     "thorough": "3x the pair counts, remove_identities sequences of length <= 5 (phase pool <= 4, palindromes of half-length 3), qft/iqft lists of length <= 4 on 5 qubits",
 }
 OUTSIDE = "circuits enumerated; symbolic remaps only for classical circuits; qft/iqft checked as inverse pair (not against the DFT matrix); n > 4 for repeat"
@@ -113,7 +113,7 @@ def make_items(tier, seed):
     # the same applied-gate object repeated: judged on exact amplitudes
     for pre in range(14):
         items.append({"ob": "remove_identities", "pool": "phase", "first": pre, "len": 4 if tier == "thorough" else 3})
-    items.append({"ob": "remove_identities", "pool": "phase", "first": 1, "nested": 3 if tier == "thorough" else 2})
+    items.append({"ob": "remove_identities", "pool": "phase", "first": 1, "nested": 3})
     items.append({"ob": "remove_identities", "first": 1, "nested": 3})
     nqf, lf = (5, 4) if tier == "thorough" else (4, 3)
     for l in range(1, lf + 1):
